@@ -39,7 +39,7 @@ import json,re,sys
 try: m=json.load(open('$SRC/meta${N}.json'))
 except Exception: m={}
 r=re.search(r'-tags[ =]([A-Za-z0-9_,]+)', m.get('demo_cmd',''))
-print('-tags '+r.group(1) if r else '')")
+print(('-tags '+r.group(1) if r else '')+(' -race' if re.search(r'go test[^;&|]* -race', m.get('demo_cmd','')) else ''))")
     ( cd "$W/repo" && eval "$DEMOENV go test -count=1 $dtags -run '^(${tname})\$' ./$pkg/ " ) > "$W/demo.out" 2>&1; rc=$?
     rm -f "$W/repo/$pkg/zz_seed_demo_test.go"; return $rc
   elif [ -d "$SRC/demo$N" ]; then
